@@ -374,6 +374,11 @@ func (p *nriPlugin) RemovePodSandbox(ctx context.Context, podSandbox *api.PodSan
 
 	m := p.resmgr
 
+	m.Lock()
+	defer m.Unlock()
+	b := metrics.Block()
+	defer b.Done()
+
 	pod, ok := m.cache.LookupPod(podSandbox.GetId())
 	if !ok {
 		nri.Warn("%s: unknown pod %s, ignoring...", event, podSandbox.GetId())
@@ -386,11 +391,6 @@ func (p *nriPlugin) RemovePodSandbox(ctx context.Context, podSandbox *api.PodSan
 		nri.Error("%s: failed to run post-release hooks for pod %s: %v",
 			event, pod.GetName(), err)
 	}
-
-	m.Lock()
-	defer m.Unlock()
-	b := metrics.Block()
-	defer b.Done()
 
 	m.cache.DeletePod(podSandbox.GetId())
 	return nil
